@@ -93,7 +93,7 @@ try:
         dest = "/verif/seeded/%s-%s" % (prop, name)
         os.makedirs(dest, exist_ok=True)
         for f in os.listdir(src):
-            if f in ("patch.diff", "demo_test.go", "run.sh", "notes.md"):
+            if f in ("patch.diff", "demo_test.go", "run.sh", "notes.md") and os.path.abspath(src) != os.path.abspath(dest):
                 shutil.copy(os.path.join(src, f), dest)
         meta = {"property": prop, "breaks": "see notes.md", "confirmed_by": "tools/seedtest.py: suite passes with change, demo fails with change, demo passes without",
                 "ran": {k: v for k, v in res.items() if k not in ("demo_output_with_change",)}}
